@@ -971,6 +971,43 @@ fn replay_enumsemi(_args: &[String]) -> i32 {
     0
 }
 
+/// C20 probe: `longname` -- a table (or column) name that passes the name checks but is longer than
+/// the catalog tables allow (`_Validation.Table` / `.Column` hold at most 32 characters): the call
+/// must return an error AND leave the package unchanged.
+fn replay_longname(_args: &[String]) -> i32 {
+    use msi::Column;
+    panic::set_hook(Box::new(|_| {}));
+    let long_table = "T".repeat(40);
+    let long_column = "C".repeat(40);
+    let cases: [(&str, &str, &str); 3] = [("table name of 40 characters", long_table.as_str(), "K"), ("column name of 40 characters", "Short", long_column.as_str()),
+                                          ("table name of 32 characters (within the limit)", &long_table[..32], "K")];
+    for (what, tname, cname) in cases {
+        let tname = tname.to_string();
+        let cname = cname.to_string();
+        let r = panic::catch_unwind(move || -> Result<(bool, bool, usize, usize), String> {
+            let mut p = Package::create(PackageType::Installer, Cursor::new(Vec::new())).map_err(|e| e.to_string())?;
+            let tables_before = p.tables().count();
+            let res = p.create_table(tname.as_str(), vec![Column::build(cname.as_str()).primary_key().int16()]);
+            let has = p.has_table(&tname);
+            let tables_after = p.tables().count();
+            Ok((res.is_ok(), has, tables_before, tables_after))
+        });
+        match r {
+            Err(_) => { println!("REPLAY family=longname case=\"{what}\" verdict=VIOLATED (panicked)"); return 1; }
+            Ok(Err(e)) => { println!("REPLAY family=longname case=\"{what}\" setup failed: {e}"); }
+            Ok(Ok((ok, has, before, after))) => {
+                if !ok && (has || after != before) {
+                    println!("REPLAY family=longname case=\"{what}\" create_table=Err has_table_afterwards={has} tables_before={before} tables_after={after} verdict=VIOLATED (the call returned an error but left the table behind)");
+                    return 1;
+                }
+                println!("REPLAY family=longname case=\"{what}\" create_table_ok={ok} has_table_afterwards={has}");
+            }
+        }
+    }
+    println!("REPLAY family=longname verdict=ok (refused without a trace, or accepted)");
+    0
+}
+
 fn main() {
     let args: Vec<String> = std::env::args().skip(1).collect();
     if args.is_empty() {
@@ -995,6 +1032,7 @@ fn main() {
         "category" => replay_category(&args[1..]),
         "catalognull" => replay_catalognull(&args[1..]),
         "enumsemi" => replay_enumsemi(&args[1..]),
+        "longname" => replay_longname(&args[1..]),
         _ => 2,
     };
     std::process::exit(rc);
